@@ -86,14 +86,122 @@ class SimRLock(SimLock):
 
 
 _ORIG_LOCKS = (threading.Lock, threading.RLock)
+_ORIG_EVENT = threading.Event
+_ORIG_CONDITION = threading.Condition
+
+
+class SimEvent:
+    """threading.Event whose wait() hands the baton on instead of blocking the OS thread.  A wait with a
+    timeout times out (in virtual time) when nothing else in the simulation can run."""
+
+    def __init__(self):
+        self._flag = False
+        self._real = _ORIG_EVENT()
+
+    def is_set(self):
+        return self._flag
+
+    isSet = is_set
+
+    def set(self):
+        self._flag = True
+        self._real.set()
+        s = SCHED[0]
+        if s is not None:
+            s.lock_released(self)
+
+    def clear(self):
+        self._flag = False
+        self._real.clear()
+
+    def wait(self, timeout=None):
+        s = SCHED[0]
+        if s is not None and s.is_worker():
+            while not self._flag:
+                if s.block_on(self, timed=timeout is not None):
+                    return self._flag  # timed out
+            return True
+        return self._real.wait(timeout)
+
+
+class SimCondition:
+    """threading.Condition over a (simulated) lock; waiting workers are parked through SimEvents."""
+
+    def __init__(self, lock=None):
+        self._lock = lock if lock is not None else SimRLock()
+        self._real = _ORIG_CONDITION(self._lock)
+        self._sim_waiters = []
+        self.acquire = self._lock.acquire
+        self.release = self._lock.release
+
+    def __enter__(self):
+        return self._lock.__enter__()
+
+    def __exit__(self, *a):
+        return self._lock.__exit__(*a)
+
+    def _full_release(self):
+        n = getattr(self._lock, "_count", 1) if getattr(self._lock, "_reentrant", False) else 1
+        for _ in range(max(1, n)):
+            self._lock.release()
+        return max(1, n)
+
+    def _restore(self, n):
+        for _ in range(n):
+            self._lock.acquire()
+
+    def wait(self, timeout=None):
+        s = SCHED[0]
+        if s is not None and s.is_worker():
+            ev = SimEvent()
+            self._sim_waiters.append(ev)
+            n = self._full_release()
+            try:
+                return ev.wait(timeout)
+            finally:
+                if ev in self._sim_waiters:
+                    self._sim_waiters.remove(ev)
+                self._restore(n)
+        return self._real.wait(timeout)
+
+    def wait_for(self, predicate, timeout=None):
+        r = predicate()
+        while not r:
+            if not self.wait(timeout) and timeout is not None:
+                return predicate()
+            r = predicate()
+        return r
+
+    def notify(self, n=1):
+        k = 0
+        while self._sim_waiters and k < n:
+            self._sim_waiters.pop(0).set()
+            k += 1
+        if k < n:
+            try:
+                self._real.notify(n - k)
+            except RuntimeError:
+                pass
+
+    def notify_all(self):
+        while self._sim_waiters:
+            self._sim_waiters.pop(0).set()
+        try:
+            self._real.notify_all()
+        except RuntimeError:
+            pass
+
+    notifyAll = notify_all
 
 
 def patch_locks():
     threading.Lock, threading.RLock = SimLock, SimRLock
+    threading.Event, threading.Condition = SimEvent, SimCondition
 
 
 def unpatch_locks():
     threading.Lock, threading.RLock = _ORIG_LOCKS
+    threading.Event, threading.Condition = _ORIG_EVENT, _ORIG_CONDITION
 
 
 # --------------------------------------------------------------------------------------------
